@@ -84,6 +84,32 @@ def _gen_c(ctx):
             sers.append((rig.ref_ser(t2), {**cls, "max_script": L, "boundary_len": L}))
             t3 = rig.mk_tx(2, [(rnd.randbytes(32), 1, b"", 0xFFFFFFFE)], [(1000, rnd.randbytes(L))], [[rnd.randbytes(72)]] if seg else [], 0)
             sers.append((rig.ref_ser(t3), {**cls, "max_script": L, "boundary_len": L}))
+    # history twins: pairs of transactions that differ in exactly one field, identified one after the other in the same process -
+    # an identifier remembered under a key that omits the field (the locktime comes after the witnesses, the version before the
+    # marker) would be handed to the second one
+    for k in range(6 if quick else 200):
+        seg = k % 3 != 2
+        n_in, n_out = rnd.choice([(1, 1), (2, 2), (1, 3)])
+        base = dict(version=rnd.choice([1, 2]),
+                    ins=[(rnd.randbytes(32), rnd.randrange(4), b"" if seg else rnd.randbytes(rnd.choice([0, 23, 107])), rnd.choice([0xFFFFFFFF, 0xFFFFFFFE, 0]))
+                         for _ in range(n_in)],
+                    outs=[(rnd.randrange(1, 10 ** 9), rnd.randbytes(rnd.choice([22, 25, 34]))) for _ in range(n_out)],
+                    wits=[[rnd.randbytes(72), rnd.randbytes(33)] for _ in range(n_in)] if seg else [], locktime=rnd.choice([0, 500000, 1700000000]))
+        variants = [base,
+                    dict(base, locktime=base["locktime"] + 1),
+                    dict(base, locktime=0xFFFFFFFF),
+                    dict(base, version=3 - base["version"]),
+                    dict(base, ins=[base["ins"][0][:3] + (base["ins"][0][3] ^ 1,)] + base["ins"][1:]),
+                    dict(base, ins=[(base["ins"][0][0], base["ins"][0][1] + 1) + base["ins"][0][2:]] + base["ins"][1:]),
+                    dict(base, outs=base["outs"][:-1] + [(base["outs"][-1][0] + 1, base["outs"][-1][1])]),
+                    dict(base, outs=base["outs"][:-1] + [(base["outs"][-1][0], base["outs"][-1][1][:-1] + bytes([base["outs"][-1][1][-1] ^ 1]))])]
+        if seg:
+            variants += [dict(base, wits=[[rnd.randbytes(71), w[1]] for w in base["wits"]]),
+                         dict(base, wits=[[rnd.randbytes(71), w[1]] for w in base["wits"]], locktime=base["locktime"] + 7)]
+        variants.append(base)            # and the first one again
+        for j, v in enumerate(variants):
+            t = rig.mk_tx(v["version"], v["ins"], v["outs"], v["wits"], v["locktime"])
+            sers.append((rig.ref_ser(t), {"segwit": seg, "history_twin": j, "twin_group": k}))
     for counts in ([(253, 1)] if quick else [(253, 1), (1, 253), (300, 2)]):
         t, cls = rig.gen_tx(rnd, counts=counts, segwit=True)
         sers.append((rig.ref_ser(t), cls))
